@@ -442,6 +442,7 @@ var Seeds = []string{
 	"A:\n    # c1\n    Ep:\n        # c2\n        x\n\n        y\n    # c3\n",
 	"A:\n    !wrap M:\n        !table T\n        !type U\n",
 	"A:\n    /x:\n        GET:\n            ...\n        PUT:\n            ...\n        PATCH:\n            ...\n        DELETE:\n            ...\n        POST:\n            ...\n",
+	"App:\n    !type T:\n        name <: string\n        dob <: date\n    !view v(t <: T) -> T:\n        t -> <T> (:\n            .name\n            .dob\n            age = 1\n            inner = t -> <T> (x:\n                x.name\n                .dob\n            )\n        )\n",
 }
 
 // Tokens substituted by the token-level edits of S2.
